@@ -236,6 +236,9 @@ class MultiTypeMap(dict):
         from .dependent import is_dependent
 
         self.clear()
+        # Resolutions remembered as errors are as stale as the cached ones
+        self.errors.clear()
+        self.all.clear()
 
         obj_t_tup = sig.types
         entry = (handler, sig)
